@@ -293,7 +293,7 @@ def parse_minimize_for_optimal(minimize):
         return compute_con_cost_write
 
     minimize_finder = re.compile(
-        r"(flops|size|write|combo|limit)-*(\d*\.?\d*)"
+        r"(flops|size|write|combo|limit)-*(\d*\.?\d*(?:[eE][-+]?\d+)?)"
     )
 
     # parse out a customized value for the combination factor
